@@ -415,3 +415,9 @@ for _n, _h in list(HARNESSES.items()):
             _opt(_n, "the blocked receiver returned a value")
     if _h["mod"] == "scen_seq" and _n.startswith("c09_") and "_a3" not in _n:
         _opt(_n, "the history saw Disconnected")
+
+# Out of reach: every harness that goes through FutInnerRecv::into_single / FutInnerUniRecv dies in
+# CBMC's propositional reduction (out of memory beyond 44 GB at only 0.35 M SSA steps, sequential and
+# concrete); not pursued further (DESIGN.md section 11).  The harness functions stay in scen_fut.rs.
+for _n in ("c05_bcfut_uni_addstream", "c05_mpfut_uni_addstream", "c14_bc_send_vs_upoll"):
+    HARNESSES.pop(_n, None)
